@@ -67,11 +67,13 @@ CLAIMED["C15"] = dict(
 CLAIMED["C03"] = dict(
     text="Lean theorems, each for EVERY width n >= 1 and all operand values, against exact integer arithmetic: unsigned and signed "
          "+ and - (result exact unless the overflow flag is set; flag <=> exact result not representable), unary - (panics exactly "
-         "on MIN), unsigned * (array multiplier = full product; flag <=> product >= 2^n), unsigned / and % (the restoring divider returns the "
-         "Euclidean quotient and remainder for every non-zero divisor), signed / and % (quotient rounded towards zero, remainder "
-         "with the sign of the dividend, for every non-zero divisor except MIN / -1), < and > (unsigned, signed), == / !=, and "
-         "every cast (target width; congruent to the source value mod 2^k; no panic). PARTIAL: signed *, << / >> and the "
-         "multiplication-by-literal rewrite are stated (C03_*_Statement) but not yet proved. All operators, all "
+         "on MIN), unsigned * (array multiplier = full product; flag <=> product >= 2^n), signed * (exact product unless the flag is set; flag "
+         "<=> product outside [-2^(n-1), 2^(n-1))), unsigned / and % (the restoring divider returns the Euclidean quotient and "
+         "remainder for every non-zero divisor), signed / and % (quotient rounded towards zero, remainder with the sign of the "
+         "dividend, for every non-zero divisor except MIN / -1), < and > (unsigned, signed), == / !=, every cast (target width; "
+         "congruent to the source value mod 2^k; no panic), and << / >> at 8/16/32/64 bits (overflow <=> amount >= width; "
+         "otherwise multiplication modulo 2^n / floor division by 2^amount, arithmetic on signed operands). PARTIAL: the "
+         "multiplication-by-literal rewrite (repeated checked addition) is not proved. All operators, all "
          "types, {var op var, var op const, const op var} and all casts are additionally checked by behavioural correspondence "
          "(compiled one-line programs vs the Lean Arith model) and against an independent Python big-integer oracle: all 2^16 "
          "operand pairs for u8/i8 arithmetic, boundary-directed and random operands for wider types.",
